@@ -603,7 +603,11 @@ func (c *c19) Run(cs core.Case) core.Result {
 			os.Remove(filepath.Join(h.dir, dataNames[0]))
 		case "one-corrupt":
 			b := append([]byte(nil), h.data[dataNames[len(dataNames)-1]]...)
-			b[len(b)/3] ^= 0x21
+			if len(b) == 0 {
+				b = []byte{0x21}
+			} else {
+				b[len(b)/3] ^= 0x21
+			}
 			os.WriteFile(filepath.Join(h.dir, dataNames[len(dataNames)-1]), b, 0644)
 		}
 	}
